@@ -14,6 +14,7 @@ import (
 	"go.opentelemetry.io/collector/internal/sharedcomponent"
 	"go.opentelemetry.io/collector/pipeline"
 	"go.opentelemetry.io/collector/service"
+	"go.opentelemetry.io/collector/service/internal/graph"
 	"go.opentelemetry.io/collector/service/internal/status"
 	"verif.local/simkit"
 )
@@ -518,7 +519,12 @@ func runC11Service(r *simkit.Run) {
 	t.Exts = append([]string{"watch/1"}, t.Exts...)
 	r.Sample = map[string]any{"mode": "service", "topology": t}
 	w := NewWorld(r)
-	srv, err := service.New(context.Background(), w.serviceSettings(&t), t.serviceConfig())
+	sset := w.serviceSettings(&t)
+	// the channel on which the service hands fatal errors to the collector: unbuffered with nobody receiving (the
+	// collector is busy), one slot (as the collector makes it), or roomy; the harness never receives from it
+	asyncCap := []int{0, 1, 8}[tp.Draw(3)]
+	sset.AsyncErrorChannel = make(chan error, asyncCap)
+	srv, err := service.New(context.Background(), sset, t.serviceConfig())
 	if err != nil {
 		r.Failf("build", "valid-rejected", "a valid configuration was rejected: %v", err)
 		return
@@ -576,30 +582,6 @@ func runC11Service(r *simkit.Run) {
 		w.plan(failStart).FailStart = true
 		r.Count("fault.component_start_failure")
 	}
-	startErr := srv.Start(context.Background())
-	r.Events++
-	// runtime reports from component tasks, merged by the tape
-	hostKeys := make([]string, 0)
-	w.mu.Lock()
-	for k := range w.hosts {
-		hostKeys = append(hostKeys, k)
-	}
-	w.mu.Unlock()
-	sort.Strings(hostKeys)
-	if startErr == nil && len(hostKeys) > 0 {
-		n := tp.Range(0, 8)
-		for i := 0; i < n; i++ {
-			k := hostKeys[tp.Draw(len(hostKeys))]
-			s := []st{sOK, sRec, sPerm, sRec, sOK, sStopg, sStart}[tp.Draw(7)]
-			r.Fire(fmt.Sprintf("component-report:%s:%s", k, s), func() {
-				w.mu.Lock()
-				h := w.hosts[k]
-				w.mu.Unlock()
-				componentstatus.ReportStatus(h, componentstatus.NewEvent(s))
-			})
-			r.Nontrivial = true
-		}
-	}
 	// The concurrent reporters are blocked on plain mutexes only (invisible to the bubble's quiescence detection) and
 	// nobody holds those now: each one finishes as soon as the OS runs it. Wait for that, however long the machine
 	// takes - a bounded number of yields made the snapshot below depend on the load of the machine.
@@ -618,6 +600,75 @@ func runC11Service(r *simkit.Run) {
 				return
 			}
 			runtime.Gosched()
+		}
+	}
+	startErr := srv.Start(context.Background())
+	r.Events++
+	// runtime reports from component tasks, merged by the tape
+	hostKeys := make([]string, 0)
+	w.mu.Lock()
+	for k := range w.hosts {
+		hostKeys = append(hostKeys, k)
+	}
+	w.mu.Unlock()
+	sort.Strings(hostKeys)
+	if startErr == nil && len(hostKeys) > 0 {
+		waitConc()
+		n := tp.Range(0, 8)
+		for i := 0; i < n; i++ {
+			k := hostKeys[tp.Draw(len(hostKeys))]
+			s := []st{sOK, sRec, sPerm, sRec, sOK, sStopg, sStart, sFatal}[tp.Draw(8)]
+			if s == sFatal {
+				r.Count("fault.fatal_error_report")
+			}
+			w.mu.Lock()
+			h := w.hosts[k]
+			w.mu.Unlock()
+			pre := w.StatusLog()
+			last := map[string]st{}
+			for _, line := range pre {
+				parts := strings.SplitN(line, "|", 3)
+				last[parts[0]] = statusByName(parts[1])
+			}
+			// the instances this host reports for: its own, or - a receiver shared across signals - every instance
+			var insts []string
+			if hw, ok := h.(*graph.HostWrapper); ok && hw.InstanceID != nil {
+				insts = []string{instKey(hw.InstanceID)}
+			} else if strings.HasSuffix(k, ":*") {
+				prefix := strings.TrimSuffix(k, ":*") + "@["
+				for ik := range last {
+					if strings.HasPrefix(ik, prefix) {
+						insts = append(insts, ik)
+					}
+				}
+				sort.Strings(insts)
+			}
+			r.Fire(fmt.Sprintf("component-report:%s:%s", k, s), func() {
+				componentstatus.ReportStatus(h, componentstatus.NewEvent(s))
+			})
+			r.Nontrivial = true
+			// a report that is a transition of the diagram from the instance's status is delivered to the watcher,
+			// whatever else the service does with it (a FatalError is also handed to the collector)
+			post := w.StatusLog()
+			for _, ik := range insts {
+				prev, ok := last[ik]
+				if !ok {
+					prev = sNone
+				}
+				if refTransition(prev, s) != must {
+					continue
+				}
+				got := 0
+				for _, line := range post[len(pre):] {
+					parts := strings.SplitN(line, "|", 3)
+					if parts[0] == ik && statusByName(parts[1]) == s {
+						got++
+					}
+				}
+				if got != 1 {
+					r.Failf("delivery", "legal-report-not-delivered/"+s.String(), "%s was in %s and its component reported %s (a transition of the diagram): the watcher received %d such events for it (async error channel capacity %d)", ik, prev, s, got, asyncCap)
+				}
+			}
 		}
 	}
 	waitConc()
@@ -694,6 +745,15 @@ func runC11Service(r *simkit.Run) {
 			}
 		}
 	}
+}
+
+func statusByName(n string) st {
+	for _, c := range allStatuses {
+		if c.String() == n {
+			return c
+		}
+	}
+	return sNone
 }
 
 func containsSt(xs []st, x st) bool {
